@@ -1,9 +1,14 @@
 #!/bin/sh
-# usage: sh checks/seedtest.sh <patch.diff> <Cxx> [<Cyy> ...]  — applies a seeded change to /repo, runs the quick checks, reverts.
+# usage: sh checks/seedtest.sh <patch.diff> <Cxx> [<Cyy> ...]
+# Runs the quick checks against a seeded change WITHOUT touching /repo: a scratch worktree of /repo's HEAD (plus /repo's uncommitted changes, if any)
+# gets the patch, the checks read it through VERIF_REPO, evidence and replay files go to a scratch directory, everything is removed afterwards.
+# (The equivalent in-place procedure: git -C /repo apply <patch>; ./vrun checks/run.py Cxx; git -C /repo checkout -- .)
 P="$(cd "$(dirname "$1")" && pwd)/$(basename "$1")"; shift
-cd /repo && git diff --quiet || { echo "/repo not clean"; exit 9; }
-git -C /repo apply "$P" || exit 9
+V="$(cd "$(dirname "$0")/.." && pwd)"; WT=$(mktemp -d /tmp/seedwt.XXXXXX); rmdir $WT
+git -C /repo worktree add -q --detach $WT HEAD || exit 9
+git -C /repo diff | (cd $WT && git apply --allow-empty 2>/dev/null)
+(cd $WT && git apply "$P") || { echo "patch does not apply"; git -C /repo worktree remove --force $WT; exit 9; }
 for c in "$@"; do
-  (cd /verif && ./vrun checks/run.py $c 2>&1 | grep -v "^I0000\|^WARNING\|^W0000" | grep "^\[$c\]\|^VIOLATION\|^UNDECIDED\|^ENGINE\|failed obligation" | cut -c1-260 | head -12; )
+  (cd $V && VERIF_REPO=$WT VERIF_EVIDENCE_DIR=$WT/.verif_evidence VERIF_OUT_DIR=$WT/.verif_out ./vrun checks/run.py $c 2>&1 | grep -v "^I0000\|^WARNING\|^W0000" | grep "^\[$c\]\|^VIOLATION\|^UNDECIDED\|^ENGINE\|failed obligation" | cut -c1-260 | head -12; )
 done
-git -C /repo checkout -- . ; git -C /repo status --short | grep -v egg-info
+git -C /repo worktree remove --force $WT
